@@ -10,6 +10,7 @@ import P0f.Model.Mtu
 import P0f.Model.Http
 import P0f.Model.DbParse
 import P0f.Model.Api
+import P0f.Model.Effects
 /-
   Line-protocol driver: one tab-separated op per input line, one answer line per op.
   Every op is answered by the *model* definitions that the theorems in `P0f/Props` are about.
@@ -326,6 +327,14 @@ def handle (f : Array String) : String :=
     | some s => s!"{String.ofList text} -> [{natList s.layout}] pad={s.eolPad} q={s.quirks.toMask}"
   | "db" =>
     " ; ".intercalate (histRun Db.empty ["L:" ++ f[1]!, "D"] [])
+  | "frame" =>
+    -- C12: footprint of each call on the caller's objects (`wStep`): only impersonate_mtu may touch its packet's options
+    " ; ".intercalate (((f.toList.drop 2).filter (· != "")).map fun st =>
+      let w : World Unit := { pkts := [{ opts := [], rest := () }], bufs := [], db := Db.empty }
+      let c : WCall := if st.startsWith "J" then .impMtu 0 1500 4 else if st.startsWith "H" then .fpHttp 0
+        else if st.startsWith "I" || st.startsWith "K" then .impTcp 0 else .fpTcp 0
+      let w' := wStep w c
+      if (w'.pkts.map (·.opts.length)) == (w.pkts.map (·.opts.length)) then "same" else "opts")
   | "histq" =>
     " ; ".intercalate (histRun Db.empty ((f.toList.drop 1).filter (· != "")) [])
   | "hist" =>
